@@ -49,7 +49,7 @@ class CHECK(FloCheck):
             "an inactive framer (45 %: the clock bids `ready`, later — in the tick in which it also flips the guard share — "
             "`start`/`ready`/`stop`), inactive framers started later) 60 %, gen_susp 25 %, gen_program "
             "15 %; 4-14 ticks. Non-trivial = a transition is taken, an auxiliary entered or a start/transition refused; "
-            "distinct by program")
+            "distinct by program. In 40 % of the framers the frames are declared in an order independent of the hierarchy (random or exactly reversed: children before parents, forward `in`/`under`/`go`/`first` references).")
     TRUSTED = ["correspondence: real Builder + Skedder vs the Lean interpreter (engine 'flo'): recorder events, per-tick "
                "state of every framer and store values",
                "oracle: guards are evaluated by the harness on the end-of-tick store values, which is exact only for "
